@@ -43,13 +43,20 @@ def daysFromCivil (y : Int) (m d : Nat) : Int :=
   let doe := yoe * 365 + yoe / 4 - yoe / 100 + doy
   era * 146097 + doe - 719468
 
-/-- Inverse of `daysFromCivil`: civil date of day number `z`. -/
+/-- Inverse of `daysFromCivil`: civil date of day number `z`. Years are counted from March 1
+inside a 400-year era (146097 days): century `c` (36524 days, the fourth one day longer),
+four-year cycle `q` (1461 days), year in cycle `yy` (365 days, the fourth one day longer). -/
 def civilFromDays (z : Int) : Int × Nat × Nat :=
   let z' := z + 719468
   let era := z' / 146097
   let doe := z' - era * 146097
-  let yoe := (doe - doe / 1460 + doe / 36524 - doe / 146096) / 365
-  let doy := doe - (365 * yoe + yoe / 4 - yoe / 100)
+  let c := if doe / 36524 < 3 then doe / 36524 else 3
+  let doc := doe - c * 36524
+  let q := doc / 1461
+  let doq := doc - q * 1461
+  let yy := if doq / 365 < 3 then doq / 365 else 3
+  let doy := doq - yy * 365
+  let yoe := c * 100 + q * 4 + yy
   let mp := (5 * doy + 2) / 153
   let d := doy - (153 * mp + 2) / 5 + 1
   let m := if mp < 10 then mp + 3 else mp - 9
@@ -455,6 +462,37 @@ def zoneKept (op : Op) (ts : Int) (zone : List Int) : Option Bool :=
   | .lte => some (decide (listMin zone ≤ ts))
   | .neq => none
 
+/-! ### The calendar in front of the per-zone index (`TemporalCalendarIndex`), one zone -/
+
+/-- `bucket_id`: start of the naive bucket of width `w`, truncated to `u32`. -/
+def calBucketId (w ts : Nat) : Nat := ts / w * w % 2 ^ 32
+
+/-- Bucket ids `add_zone_range` inserts for the inclusive range `[mn, mx]`. -/
+def calIds (w mn mx : Nat) : List Nat :=
+  (List.range (mx / w - mn / w + 1)).map fun k => calBucketId w ((mn / w + k) * w)
+
+/-- `zones_intersecting(op, v)` restricted to one zone that was registered with `[mn, mx]`. -/
+def calCandidate (op : Op) (v : Int) (mn mx : Nat) : Bool :=
+  if v < 0 then false else
+  let ts := v.toNat
+  let days := calIds naiveDay mn mx
+  match op with
+  | .eq => (calIds naiveHour mn mx).contains (calBucketId naiveHour ts) || days.contains (calBucketId naiveDay ts)
+  | .gt | .gte => days.any fun b => decide (b ≥ calBucketId naiveDay ts)
+  | .lt | .lte => days.any fun b => decide (b ≤ calBucketId naiveDay ts)
+  | .neq => true
+
+/-- `TemporalPruner::apply_temporal_only` on a segment with a single zone holding `zone`
+(non-empty). `inCalendar`: `TemporalIndexBuilder` registers a zone in the calendar only when its
+minimum and maximum are both ≥ 0. `some true` = the zone stays a candidate. -/
+def prunerDecision (op : Op) (lit : SV) (inCalendar : Bool) (zone : List Int) : Option Bool :=
+  let ts := prunerTs lit
+  match zoneKept op ts zone with
+  | none => none
+  | some k =>
+    let cand := inCalendar && calCandidate op ts (listMin zone).toNat (listMax zone).toNat
+    some (cand && k)
+
 /-! ## Calendar bucketing (`CalendarTimeBucketer`) for UTC and fixed offsets -/
 
 inductive Gran where
@@ -487,11 +525,13 @@ def chronoMaxTs : Int := daysFromCivil maxYear 12 31 * 86400 + 86399
 /-- `CalendarTimeBucketer::bucket_of` for UTC (`off = 0`) or a zone with constant offset `off`
 seconds east: `ts as i64`, fall back to the epoch when chrono cannot represent it, bucket in
 local time, back to UTC, `as u64`. -/
-def bucketOf (off : Int) (weekStart : Nat) (g : Gran) (ts : Nat) : Nat :=
+def bucketOf (off : Int) (weekStart : Nat) (g : Gran) (ts : Nat) : Option Nat :=
   let t := u64AsI64 (ts % 2 ^ 64)
   let t := if chronoMinTs ≤ t ∧ t ≤ chronoMaxTs then t else 0
   let b := bucketLocal g weekStart (t + off) - off
-  (b % 2 ^ 64).toNat
+  -- `date_naive() - Duration::days(n)` panics when the week start precedes `NaiveDate::MIN`
+  if g = .week ∧ b + off < chronoMinTs then none
+  else some (b % 2 ^ 64).toNat
 
 /-- `naive_bucket_of`. -/
 def naiveBucketOf (g : Gran) (ts : Nat) : Nat :=
@@ -532,14 +572,18 @@ def fmtOffset (offMin : Int) (st : Style) : List Char :=
     let a := offMin.natAbs
     (if offMin < 0 then st.minus else '+') :: (pad2 (a / 60) ++ ':' :: pad2 (a % 60))
 
-/-- The instant `t` (epoch seconds) written at UTC offset `offMin` minutes. -/
-def format (t : Int) (offMin : Int) (st : Style) : List Char :=
+/-- Date, time and fraction of the instant `t` as seen at UTC offset `offMin` minutes. -/
+def formatBody (t : Int) (offMin : Int) (st : Style) : List Char :=
   let l := t + offMin * 60
   let day := l / 86400
   let sod := (l % 86400).toNat
-  let (y, m, d) := civilFromDays day
-  pad4 y.toNat ++ '-' :: (pad2 m ++ '-' :: (pad2 d ++ st.sep :: (pad2 (sod / 3600) ++ ':' ::
+  let cv := civilFromDays day
+  pad4 cv.1.toNat ++ '-' :: (pad2 cv.2.1 ++ '-' :: (pad2 cv.2.2 ++ st.sep :: (pad2 (sod / 3600) ++ ':' ::
     (pad2 (sod / 60 % 60) ++ ':' :: (pad2 (sod % 60)
-      ++ ((if st.frac.isEmpty then [] else '.' :: st.frac) ++ fmtOffset offMin st))))))
+      ++ (if st.frac.isEmpty then [] else '.' :: st.frac))))))
+
+/-- The instant `t` (epoch seconds) written at UTC offset `offMin` minutes. -/
+def format (t : Int) (offMin : Int) (st : Style) : List Char :=
+  formatBody t offMin st ++ fmtOffset offMin st
 
 end Snel.Time
